@@ -28,6 +28,9 @@ type gridScreen struct {
 	topMargin, bottomMargin int
 
 	autoWrap bool
+
+	// keepsScrollback: see spanScreen
+	keepsScrollback bool
 }
 
 func newGridScreen(f Frontend) *gridScreen {
@@ -71,6 +74,10 @@ func (s *gridScreen) BottomMargin() int {
 
 func (s *gridScreen) SetFrontend(f Frontend) {
 	s.frontend = f
+}
+
+func (s *gridScreen) setKeepsScrollback(keeps bool) {
+	s.keepsScrollback = keeps
 }
 
 func (s *gridScreen) getLine(y int) []rune {
@@ -687,6 +694,10 @@ func (s *gridScreen) scroll(y1 int, y2 int, dy int) {
 		debugPrintln(debugScroll, "scroll changed region:", Region{Y: y1, Y2: y1 + dy, X: 0, X2: s.size.X})
 		s.eraseRegion(Region{Y: y1, Y2: y1 + dy, X: 0, X2: s.size.X}, CRScroll)
 	} else {
+		if dy < 0 && y1 == 0 && s.keepsScrollback {
+			// the first -dy rows are about to leave the screen through the top
+			s.frontend.ScrollLines(-dy)
+		}
 		for y := y1; y <= y2+dy; y++ {
 			// fmt.Println("   3: ", y, y1, y2+dy)
 			copy(s.chars[y], s.chars[y-dy])
